@@ -190,7 +190,8 @@ class PF(EKF):
         '''
         r = torch.rand(self.particles, dtype=x.dtype, device=x.device)
         cumsumq = torch.cumsum(q, dim=-1)
-        return x[torch.searchsorted(cumsumq, r)]
+        index = torch.searchsorted(cumsumq, r).clamp(max=q.size(-1) - 1)
+        return x[index]
 
     def compute_cov(self, a, b, Q=0):
         '''Compute covariance of two set of variables.'''
